@@ -177,6 +177,14 @@ func (r *Report) ApplyKnown(known []KnownFinding) {
 func (r *Report) Merge(other *Report) {
 	for _, o := range other.Obs {
 		c := *o
+		if prev, ok := r.seen[c.Key()]; ok {
+			// same obligation decided in another build configuration: keep one entry (worst verdict wins)
+			if rank(c.Status) > rank(prev.Status) {
+				prev.Status, prev.Pos, prev.Expected, prev.Found = c.Status, c.Pos, c.Expected, c.Found+" ["+other.Config+"]"
+			}
+			prev.Facts = append(prev.Facts, "also decided under "+other.Config+": "+string(c.Status))
+			continue
+		}
 		if other.Config != "" && other.Config != r.Config {
 			c.Construct = c.Construct + " [" + other.Config + "]"
 		}
